@@ -75,6 +75,7 @@ let rec ty_of (s : str) : jty =
   | 'B' -> TBool
   | 'U' -> TUnit
   | 'S' -> TString
+  | 'N' -> TNumber
   | _ -> raise (Bad_case "type")
 
 let conv ty cs =
